@@ -100,6 +100,9 @@ type JobSpec struct {
 	JS          string   `json:"js,omitempty"` // javascript transform code (plain text)
 	Parallelism int      `json:"parallelism,omitempty"`
 	OnError     []map[string]interface{} `json:"on_error,omitempty"`
+	// Mixed: the job has a second trigger of the other job type (an incremental job with a periodic fullsync,
+	// both sharing the job's continuation token)
+	Mixed bool `json:"mixed,omitempty"`
 }
 
 // jobConfig builds the real JobConfiguration (as JSON, parsed by the scheduler's own parser).
@@ -119,6 +122,13 @@ func (j *JWorld) jobConfig(h *server.VHist, id string, sp JobSpec) (*JobConfigur
 		"source": src,
 		"sink":   map[string]interface{}{"Type": "DatasetSink", "Name": h.DsName(sp.Sink)},
 		"triggers": []interface{}{map[string]interface{}{"triggerType": "cron", "jobType": sp.JobType, "schedule": "0 0 1 1 *", "onError": sp.OnError}},
+	}
+	if sp.Mixed {
+		other := "fullsync"
+		if sp.JobType == "fullsync" {
+			other = "incremental"
+		}
+		cfg["triggers"] = append(cfg["triggers"].([]interface{}), map[string]interface{}{"triggerType": "cron", "jobType": other, "schedule": "0 0 2 1 *", "onError": sp.OnError})
 	}
 	if sp.JS != "" {
 		tr := map[string]interface{}{"Type": "JavascriptTransform", "Code": base64.StdEncoding.EncodeToString([]byte(sp.JS))}
@@ -148,6 +158,19 @@ func (j *JWorld) newJob(h *server.VHist, sp JobSpec) (*job, *JobConfiguration, e
 		return nil, cfg, fmt.Errorf("toTriggeredJobs: %v", err)
 	}
 	return jobs[0], cfg, nil
+}
+
+// otherJob returns the job object of the second trigger of a Mixed job.
+func (j *JWorld) otherJob(id string) (*job, error) {
+	cfg, err := j.Sched.LoadJob(id)
+	if err != nil || cfg.ID == "" {
+		return nil, fmt.Errorf("job %s not found: %v", id, err)
+	}
+	jobs, err := j.Sched.toTriggeredJobs(cfg)
+	if err != nil || len(jobs) < 2 {
+		return nil, fmt.Errorf("toTriggeredJobs: %v (%d jobs)", err, len(jobs))
+	}
+	return jobs[1], nil
 }
 
 // reloadJob rebuilds the job object from the stored definition (after a restart).
